@@ -140,10 +140,13 @@ def _chain_letters(dim):
 
 def _chains(dim, tier):
     L = _chain_letters(dim)
+    rot = [o for o in L if o['op'] == 'rotate']
+    # three steps on the same object: rotate - move - rotate (and scale in between), the second rotation about the start point
+    # the shape has THEN
+    triples = [[rot[0], L[0], rot[-1]], [rot[-1], L[-2], rot[0]], [L[0], rot[0], L[0]]]
     if tier == 'quick':
-        rot = [o for o in L if o['op'] == 'rotate']
-        return [[rot[0], rot[-1]], [L[0], rot[-1]], [L[-2], rot[0]]]
-    return [[a, b] for a in L for b in L]
+        return [[rot[0], rot[-1]], [L[0], rot[-1]], [L[-2], rot[0]]] + triples
+    return [[a, b] for a in L for b in L] + triples
 
 
 def gen_cases(tier, seed):
